@@ -242,19 +242,50 @@ PROPS['C15'] = dict(
     assumptions=[],
 )
 
+C09_THEOREMS = ['C09_records_of_every_write_are_written_exactly_once_in_order', 'C09_in_flight_writes_are_a_prefix',
+                'C09_every_job_is_finished_exactly_once', 'C09_responses_are_those_of_the_submitted_batch',
+                'C09_one_thread_in_a_file_critical_section', 'C09_a_job_is_held_by_one_thread',
+                'C09_batch_in_one_file_refuted', 'C09_executable_successors_are_the_steps']
+C10_THEOREMS = ['C10_no_deadlock', 'C10_no_infinite_run', 'C10_every_call_returns_on_every_run',
+                'C10_close_returns_only_when_every_file_is_closed', 'C10_after_close_nothing_reopens',
+                'C10_write_on_a_closed_writer_returns_no_responses']
+def _conc_stats(c, o):
+    t = c.split()
+    ks = ['workers=%s' % t[1], 'goroutines=%s' % t[8], 'delaymode=%s' % ('none' if t[6] == '0' else 'random' if t[6] == '1' else 'targeted')]
+    if ' c' in c: ks.append('with-close')
+    if ' r' in c: ks.append('with-rotate')
+    if t[7] == '1': ks.append('continuation-marshaler')
+    if ':n' in o: ks.append('a-write-returned-nil')
+    return ks
+CONC_RULE = ('conc: 1-4 goroutines with scripts of 1-4 calls (Write of 1-3 records, Rotate, Close) on one writer with 1-3 workers, '
+             'compression on/off, size limits that force rotation, warcinfo on/off, a marshaler that returns continuation segments; the schedule is steered '
+             'through the verif hooks (random short delays at the 12 schedule points, or one long delay at the k-th hit of one point); afterwards a final Close, '
+             'a late Write, and every file is read back with the strict reader. The history of the run (order of call starts and returns, with results) is given to the '
+             'extracted protocol model, which searches for a model run with that history (set of compatible model states closed under Protocol.succs); a history the model cannot produce is a mismatch. '
+             'distinct = distinct (scenario, observation) pairs')
 PROPS['C09'] = dict(
-    id='C09', domains=['conc'], no_model={'conc': True},
+    id='C09', domains=['conc'], feed_impl=('conc',),
     n=dict(quick=dict(conc=300), thorough=dict(conc=6000)),
-    theorems=[('Properties.C09', [])],
-    kinds={'panic', 'deadlock', 'torn-file', 'lost-or-duplicated', 'misplaced', 'nil-but-written', 'batch-not-contiguous', 'batch-split-across-files'},
-    rule='TODO', level_text='TODO', level_note='TODO',
+    theorems=[('Properties.C09', C09_THEOREMS), ('Properties.SyncSkeleton', ['sync_skeleton_is_the_modelled_one'])],
+    kinds={'panic', 'torn-file', 'lost-or-duplicated', 'misplaced', 'nil-but-written', 'batch-not-contiguous', 'batch-split-across-files'},
+    stats=_conc_stats,
+    rule=CONC_RULE,
+    level_text='PARTIAL, with one part REFUTED. Proved in Coq for every number of callers, scripts, workers and EVERY interleaving of the protocol model (callers, dispatcher, workers, channels, per-worker mutexes): the record writes done for a caller are exactly, in order, records 0..b-1 of each Write that returned b responses and none for a Write that returned no responses; a job is finished exactly once, by one worker; responses are those of the submitted batch; at most one thread is inside a worker\'s file critical section (so each file history is a sequential run of the writer model of C04/C12/C13). Refuted: batch contiguity (theorem C09_batch_in_one_file_refuted: a concurrent Rotate closes the file between two records of a batch; C13 has the size-triggered variant) - known finding batch-split-across-files. Not proved: byte-level intactness of files under concurrency (observed by reading every file back).',
+    level_note='Trusted: Coq kernel, extraction, the translator go/gen (sync skeleton of warcfile.go, regenerated on every run and compared with the skeleton the model was written from), harness. Modelled, not verified: Go channel/select/mutex/WaitGroup semantics as interleaving transitions; a critical section body (one record write or a file close, including a continuation segment written through the unlocked inner write) is one step that returns. The file contents are the sequential writer model (C04); here a file is open/closed plus an event log.',
+    assumptions=['Go runtime: unbuffered channel rendezvous, close-broadcast, sync.Mutex and sync.WaitGroup behave as the interleaving semantics says',
+                 'file system calls and user hooks inside a critical section return'],
 )
 PROPS['C10'] = dict(
-    id='C10', domains=['conc'], no_model={'conc': True},
+    id='C10', domains=['conc'], feed_impl=('conc',),
     n=dict(quick=dict(conc=300), thorough=dict(conc=6000)),
-    theorems=[('Properties.C10', [])],
+    theorems=[('Properties.C10', C10_THEOREMS), ('Properties.SyncSkeleton', ['sync_skeleton_is_the_modelled_one'])],
     kinds={'panic', 'deadlock', 'close-early', 'write-after-close'},
-    rule='TODO', level_text='TODO', level_note='TODO',
+    stats=_conc_stats,
+    rule=CONC_RULE,
+    level_text='PARTIAL (scheduler fairness and termination of file-system calls are assumed). Proved in Coq for every number of callers with finite scripts, every number of workers >= 1 and every interleaving: a reachable state with an unfinished call is never stuck (no deadlock, no lost wake-up), every step decreases a measure (no infinite run), hence on every run all calls return; a Close returns only when all workers have ended and every file is closed, and nothing reopens; a Write on a closed writer returns no responses in its first step. The implementation is run under steered schedules with a watchdog, and its call/return histories must be runs of the model.',
+    level_note='Trusted: Coq kernel, extraction, translator (sync skeleton), harness. Not exhibited by the model: Go scheduler fairness; blocking inside os calls or user callbacks. The continuation path is covered by the skeleton check (no call of the locking Write/Close from inside a critical section) and by the harness marshaler that returns continuation records.',
+    assumptions=['Go runtime channel/mutex/WaitGroup semantics; a runnable goroutine eventually runs',
+                 'file system calls and user hooks inside a critical section return'],
 )
 PROPS['C12'] = dict(
     id='C12', domains=['crash'], no_model={'crash': True},
